@@ -132,6 +132,17 @@ type feature struct {
 	Doc   string
 	Embed bool
 	Class string // shape class + tag class
+	Decl  *sdecl // non-nil: the model is this whole struct declaration (embedded structs), not field-under-test + pad
+}
+
+// fieldText: the field under test (or the whole declaration) as Go text, for reports
+func (f feature) fieldText() string {
+	if f.Decl != nil {
+		var b strings.Builder
+		f.Decl.helpers(&b)
+		return b.String() + "struct {\n" + f.Decl.body() + "}"
+	}
+	return strings.TrimSpace(F{Name: "F", Type: f.Type, Tag: f.Tag, Doc: f.Doc, Embedded: f.Embed}.Go())
 }
 
 func tagClass(tag string) string {
@@ -235,6 +246,10 @@ func catalogue(r *rng.R, extra int) []feature {
 	out = append(out, feature{Type: model("Inner"), Embed: true, Tag: "-", Class: "embedded-model:tag-dash"})
 	out = append(out, feature{Type: model("lower"), Embed: true, Class: "embedded-unexported-struct:no-tag"})
 	out = append(out, feature{Type: model("lower"), Embed: true, Tag: "-", Class: "embedded-unexported-struct:tag-dash"})
+	out = append(out, feature{Type: model("Both"), Tag: "f", Class: "struct-embedding-same-name-at-two-depths-shallow-first:renamed"})
+	out = append(out, feature{Type: model("BothRev"), Tag: "f", Class: "struct-embedding-same-name-at-two-depths-deep-first:renamed"})
+	out = append(out, feature{Type: model("Shadow"), Tag: "f", Class: "struct-shadowing-a-promoted-field:renamed"})
+	out = append(out, feature{Type: model("Both"), Embed: true, Class: "embedded-struct-embedding-same-name-at-two-depths:no-tag"})
 	// ignored by annotation
 	out = append(out, feature{Type: sc("string"), Tag: "f", Doc: "swagger:ignore", Class: "string:swagger-ignore"})
 	// random compositions
@@ -244,6 +259,8 @@ func catalogue(r *rng.R, extra int) []feature {
 		tag := tags[r.Intn(len(tags))]
 		out = append(out, feature{Type: t, Tag: tag, Class: t.Class() + ":" + tagClass(tag)})
 	}
+	// whole declarations with embedded structs (Scan/Embed.v)
+	out = append(out, declFeatures(r, len(out), 8+extra/2)...)
 	return out
 }
 
@@ -332,6 +349,40 @@ type lower struct {
 	hidden int
 }
 
+// DeepV sits two levels below Both
+type DeepV struct {
+	V int64 ` + "`json:\"v\"`" + `
+	W bool  ` + "`json:\"w\"`" + `
+}
+
+// MidV embeds DeepV
+type MidV struct {
+	DeepV
+}
+
+// ShallowV declares v one level below Both: encoding/json lets the shallower field win
+type ShallowV struct {
+	V string ` + "`json:\"v\"`" + `
+}
+
+// Both embeds the shallow declaration first, the deeper one second
+type Both struct {
+	ShallowV
+	MidV
+}
+
+// BothRev embeds them in the other order
+type BothRev struct {
+	MidV
+	ShallowV
+}
+
+// Shadow re-declares a promoted field itself
+type Shadow struct {
+	DeepV
+	V string ` + "`json:\"v\"`" + `
+}
+
 `
 
 func packageSource(feats []feature) string {
@@ -339,6 +390,11 @@ func packageSource(feats []feature) string {
 	b.WriteString(prelude)
 	b.WriteString(lowerDecl)
 	for i, f := range feats {
+		if f.Decl != nil {
+			f.Decl.helpers(&b)
+			fmt.Fprintf(&b, "// M%d is a declaration of class %s\n//\n// swagger:model\ntype M%d struct {\n%s}\n\n", i, f.Class, i, f.Decl.body())
+			continue
+		}
 		fmt.Fprintf(&b, "// M%d has a field of class %s\n//\n// swagger:model\ntype M%d struct {\n", i, f.Class, i)
 		b.WriteString(F{Name: "F", Type: f.Type, Tag: f.Tag, Doc: f.Doc, Embedded: f.Embed}.Go())
 		b.WriteString("\tPad string `json:\"pad\"`\n}\n\n")
